@@ -30,7 +30,7 @@ Proof. exact every_order_is_complete. Qed.
 Print Assumptions C04_every_order_is_complete.
 
 (* rolling: the gateway is touched only behind an existing canary Service and a pinned stable Service (C03 gives more) *)
-Theorem C04_route_written_only_behind_canary_service : forall c n g,
+Theorem C04_route_written_only_behind_canary_service : forall c n g, tc_only_traffic c = false ->
   no_route_writes (tr_writes (do_traffic_routing c n g)) \/
   (n_canary_svc n = Some (tc_canary_rev c) /\ n_stable_sel n = Some (tc_stable_rev c) /\ tc_last_update c <> Some false /\
    exists s, tr_writes (do_traffic_routing c n g) = [WRoute s] /\ (s = tc_strategy c \/ (n_route n = RNone /\ s = init_strategy))).
